@@ -204,6 +204,14 @@ def reduce_harness(kind, n, c1, c2):
             exp = {"sum": lambda: ssum(xs), "sum1": lambda: ssum([rabs(v) for v in xs]), "sum2": lambda: ssum([mul(v, v) for v in xs]),
                    "mean": lambda: mul(ssum(xs), Fraction(1, n))}[kind]()
             ex.check(req(r, exp), kind + ":not-the-defining-formula")
+            if kind == "mean":
+                # the mean of finite doubles is representable: no arithmetic result of the executed IR may leave the double range
+                # (exact-real stand-in for IEEE overflow; a sum-then-scale body equals the formula in the reals but returns inf)
+                lim = Fraction(2) ** 1023
+                ex.assume(conj([conj([rle(v, lim), rle(-lim, v)]) for v in xs]))
+                ex.range_watch = (Fraction(2) ** 1024, Fraction(1, 2 ** 1075))
+                tr.call("a_real_mean_", n, X.addr, c1, ret="f64") if strided else tr.call("a_real_mean", n, X.addr, ret="f64")
+                ex.range_watch = None
         elif kind == "dot":
             Y = Arr(ex, tr, max(n * c2, 1), "y")
             ys = [Y.v[i * c2] for i in range(n)]
